@@ -21,7 +21,7 @@ pub struct Case {
 pub fn meta() -> PropMeta {
   PropMeta {
     id: "C14",
-    rule: "cases = (depth, cell, delta_depth >= 1, depth + delta <= 29): all cells of depth 0..=3 x delta 1..=4 (quick) / depth 0..=4 x delta 1..=6 (thorough) enumerated, plus generated (depth 0..=28, cell by class: base-cell corners / borders / one step inside / uniform, delta 1..=min(10, 29-depth), incl. depth + delta = 29); non-trivial = cell on a base-cell border (the external edge crosses a seam) or delta >= 3; distinct by (depth, cell, delta)",
+    rule: "cases = (depth, cell, delta_depth >= 1, depth + delta <= 29): all cells of depth 0..=3 x delta 1..=4 (quick) / depth 0..=4 x delta 1..=6 (thorough) enumerated, plus generated (depth 0..=28, cell by class: base-cell corners / borders / one step inside / uniform, delta 1..=min(14, 29-depth), incl. depth + delta = 29); delta 11..=29-depth for the four corner sub-cells only (O(1) helpers; the lists would have 4*2^delta cells); non-trivial = cell on a base-cell border (the external edge crosses a seam) or delta >= 3; distinct by (depth, cell, delta)",
     assumptions: vec![
       "delta_depth = 0 is outside the domain (the stated cardinality 4*2^delta - 4 is 0 and the crate's masks shift by 64)".into(),
       "reference: descendants and deep-level neighbour map of the lattice model; external corner(dir) = deep neighbour towards dir of the corner descendant; external side(ord) = deep neighbours towards ord of the descendants on that side".into(),
@@ -137,11 +137,14 @@ pub fn check(c: &Case, rec: &mut Rec) -> Result<(), Violation> {
       Ok(v) => v,
       Err(p) => return Err(f(Violation::new("internal_corner", "panic", format!("internal_corner({}, {}, {}) panicked: {}", h, dl, k, p)))),
     };
-    let direct = match k {
+    let direct = match catch(|| match k {
       0 => nested::internal_corner_south(h, dl),
       1 => nested::internal_corner_east(h, dl),
       2 => nested::internal_corner_north(h, dl),
       _ => nested::internal_corner_west(h, dl),
+    }) {
+      Ok(v) => v,
+      Err(p) => return Err(f(Violation::new("internal_corner", "panic", format!("internal_corner_<dir>({}, {}) [{}] panicked: {}", h, dl, k, p)))),
     };
     if got != corner_desc[k] || direct != corner_desc[k] {
       return Err(f(Violation::new("internal_corner", "mismatch", format!("internal_corner(depth {} cell {}, delta {}, {}) = {} / {}, expected {}", d, h, dl, ["S", "E", "N", "W"][k], got, direct, corner_desc[k]))));
@@ -165,21 +168,27 @@ pub fn check(c: &Case, rec: &mut Rec) -> Result<(), Violation> {
       Ok(v) => v,
       Err(p) => return Err(f(Violation::new("internal_edge_part", "panic", format!("internal_edge_part({}, {}, {}) panicked: {}", h, dl, lattice::WIND_NAMES[ord], p)))),
     };
-    let direct = match ord {
-      SE => nested::internal_edge_southeast(h, dl),
-      SW => nested::internal_edge_southwest(h, dl),
-      NE => nested::internal_edge_northeast(h, dl),
-      _ => nested::internal_edge_northwest(h, dl),
+    let (direct, app, app2) = match catch(|| {
+      let direct = match ord {
+        SE => nested::internal_edge_southeast(h, dl),
+        SW => nested::internal_edge_southwest(h, dl),
+        NE => nested::internal_edge_northeast(h, dl),
+        _ => nested::internal_edge_northwest(h, dl),
+      };
+      let mut app = vec![u64::MAX, 7];
+      nested::append_internal_edge_part(h, dl, &ordinal(ord), &mut app);
+      let mut app2 = vec![3u64];
+      match ord {
+        SE => nested::append_internal_edge_southeast(h, dl, &mut app2),
+        SW => nested::append_internal_edge_southwest(h, dl, &mut app2),
+        NE => nested::append_internal_edge_northeast(h, dl, &mut app2),
+        _ => nested::append_internal_edge_northwest(h, dl, &mut app2),
+      }
+      (direct, app, app2)
+    }) {
+      Ok(v) => v,
+      Err(p) => return Err(f(Violation::new("internal_edge_part", "panic", format!("internal_edge_<side> / append_* ({}, {}, {}) panicked: {}", h, dl, lattice::WIND_NAMES[ord], p)))),
     };
-    let mut app = vec![u64::MAX, 7];
-    nested::append_internal_edge_part(h, dl, &ordinal(ord), &mut app);
-    let mut app2 = vec![3u64];
-    match ord {
-      SE => nested::append_internal_edge_southeast(h, dl, &mut app2),
-      SW => nested::append_internal_edge_southwest(h, dl, &mut app2),
-      NE => nested::append_internal_edge_northeast(h, dl, &mut app2),
-      _ => nested::append_internal_edge_northwest(h, dl, &mut app2),
-    }
     if got.to_vec() != want || direct.to_vec() != want || app[..2] != [u64::MAX, 7] || app[2..] != want[..] || app2[0] != 3 || app2[1..] != want[..] {
       return Err(f(Violation::new(
         "internal_edge_part",
@@ -311,11 +320,52 @@ pub fn check(c: &Case, rec: &mut Rec) -> Result<(), Violation> {
   Ok(())
 }
 
+/// delta_depth 11..=29 (depth + delta <= 29): the edge lists would have 4 * 2^delta cells, so only
+/// the O(1) helpers are checked there -- the four corner sub-cells, through every entry point
+/// (the z-order class is selected from delta: LARGE for delta >= 17).
+pub fn check_corners(c: &Case, rec: &mut Rec) -> Result<(), Violation> {
+  rec.eval();
+  let (d, dl) = (c.depth, c.delta);
+  let dd = d + dl;
+  let h = lattice::nested_hash(d, c.cell);
+  rec.class(&format!("delta_{}", if dl >= 17 { "17_29" } else { "11_16" }));
+  rec.nontrivial(fp_of(&(d, h, dl)));
+  rec.sample(|| json!(c));
+  let f = |v: Violation| v.fact("depth", d as f64).fact("hash", h as f64).fact("delta", dl as f64).fact("deep_depth", dd as f64);
+  let am1 = ((1u64 << dl) - 1) as u32;
+  let desc = |a: u32, b: u32| lattice::nested_hash(dd, lattice::descendant(c.cell, dl, a, b));
+  let want = [desc(0, 0), desc(am1, 0), desc(am1, am1), desc(0, am1)]; // S, E, N, W
+  for k in 0..4 {
+    let got = match catch(|| {
+      (
+        nested::internal_corner(h, dl, &sut::cardinal(k)),
+        match k {
+          0 => nested::internal_corner_south(h, dl),
+          1 => nested::internal_corner_east(h, dl),
+          2 => nested::internal_corner_north(h, dl),
+          _ => nested::internal_corner_west(h, dl),
+        },
+      )
+    }) {
+      Ok(v) => v,
+      Err(p) => return Err(f(Violation::new("internal_corner", "panic", format!("internal_corner(depth {} cell {}, delta {}, {}) panicked: {}", d, h, dl, ["S", "E", "N", "W"][k], p)))),
+    };
+    if got.0 != want[k] || got.1 != want[k] {
+      return Err(f(Violation::new("internal_corner", "mismatch", format!("internal_corner(depth {} cell {}, delta {}, {}) = {} / {}, expected {}", d, h, dl, ["S", "E", "N", "W"][k], got.0, got.1, want[k]))));
+    }
+  }
+  Ok(())
+}
+
+fn strat_large_delta() -> BoxedStrategy<Case> {
+  (0u8..=18).prop_flat_map(|d| (gens::cell(d), 11u8..=(29 - d)).prop_map(move |(cell, delta)| Case { depth: d, cell, delta })).boxed()
+}
+
 fn strat() -> BoxedStrategy<Case> {
   (0u8..=28)
     .prop_flat_map(|d| {
-      let maxdl = (29 - d).min(10);
-      let dl = prop_oneof![12 => 1u8..=maxdl.min(3), 4 => 1u8..=maxdl.min(6), 1 => 1u8..=maxdl, 1 => Just(29 - d).prop_map(move |x| x.min(10).max(1))];
+      let maxdl = (29 - d).min(14);
+      let dl = prop_oneof![12 => 1u8..=maxdl.min(3), 4 => 1u8..=maxdl.min(6), 1 => 1u8..=maxdl, 1 => Just(29 - d).prop_map(move |x| x.min(14).max(1))];
       (gens::cell(d), dl).prop_map(move |(cell, delta)| Case { depth: d, cell, delta })
     })
     .boxed()
@@ -336,9 +386,14 @@ pub fn run(ctx: &Ctx, rep: &mut Report) {
   let f = if ctx.profile == "release" { 1 } else { 4 };
   ctx.run_random(rep, "sampled", strat, ctx.tier.pick(40_000, 2_000_000) / f, check);
   ctx.run_random(rep, "depth_plus_delta_29", strat_deep, ctx.tier.pick(4_000, 200_000) / f, check);
+  ctx.run_random(rep, "large_delta_corners", strat_large_delta, ctx.tier.pick(300_000, 10_000_000) / f, check_corners);
 }
 
 pub fn replay(ctx: &Ctx, rep: &mut Report, section: &str, case: &Value) -> Result<(), String> {
-  ctx.run_one(rep, section, &super::de::<Case>(case)?, check);
+  if section == "large_delta_corners" {
+    ctx.run_one(rep, section, &super::de::<Case>(case)?, check_corners);
+  } else {
+    ctx.run_one(rep, section, &super::de::<Case>(case)?, check);
+  }
   Ok(())
 }
